@@ -6,6 +6,7 @@ CONSTANTS
   L = 3
   Dim = 2
   Periodic = TRUE
+  OpenAxes = {}
   Radii = {1}
   MaxPer = 2
   NFrames = 2
